@@ -7,7 +7,7 @@ PROP = "C12"
 PROP_FILE = "Properties/C12.v"
 
 SERR = {"uri_count": 1, "email": 2, "scheme": 3, "unescape": 4, "format": 5, "unsupported": 6,
-        "denied": 7, "datacenter": 8, "trust_domain": 9}
+        "denied": 7, "datacenter": 8, "trust_domain": 9, "not_agent": 10, "wrong_node": 11}
 CERR = {"one_active": "EOneActive", "active_overwritten": "EActiveOverwritten", "missing_id": "EMissingID", "config_cas": "EConfigCAS",
         "invalid_op": "EInvalidOp"}
 
@@ -38,8 +38,9 @@ def sign_to_coq(c):
     else:
         exp = "Err %s" % coq_N(SERR.get(e["err"], 99))
     ser = ("Some %s" % coq_N(c["serial"])) if c["has_serial"] else "None"
-    return "CSign (SignCase %s %s (%s) %s %s %s %s %s (%s) (%s))" % (
-        hs(c["dc"]), hs(c["cluster"]), ser, coq_N(c["builtin"]), tab_coq(c["svc_tab"]), tab_coq(c["node_tab"]),
+    node = "None" if c.get("entry", "authorize") == "authorize" else "(Some %s)" % hs(c.get("node", ""))
+    return "CSign (SignCase %s %s %s (%s) %s %s %s %s %s (%s) (%s))" % (
+        node, hs(c["dc"]), hs(c["cluster"]), ser, coq_N(c["builtin"]), tab_coq(c["svc_tab"]), tab_coq(c["node_tab"]),
         coq_bool(c["mesh"]), coq_bool(c["acl"]), csr, exp)
 
 
@@ -108,8 +109,9 @@ def shard_text(cases, tab=None):
     if tab is not None:
         esc = coq_list([coq_bool(b) for b in tab["escape_path"]])
         hx = coq_list([coq_N(16 if v < 0 else v) for v in tab["hex"]])
-        pre = "Definition tab_esc : list bool := %s.\nDefinition tab_hex : list N := %s.\n" % (esc, hx)
-        m = "(tab_mismatch tab_esc tab_hex ++ mismatches cases)%list"
+        vl = coq_list([coq_bool(b) for b in tab["valid_enc"]])
+        pre = "Definition tab_esc : list bool := %s.\nDefinition tab_hex : list N := %s.\nDefinition tab_valid : list bool := %s.\n" % (esc, hx, vl)
+        m = "(tab_mismatch tab_esc tab_hex tab_valid ++ mismatches cases)%list"
     return ("From Verif Require Import Base.Prelude CA.Model Run.C12.\n"
             "Open Scope N_scope.\n%s"
             "Definition cases : list case := [\n  %s\n].\n"
@@ -119,15 +121,22 @@ def shard_text(cases, tab=None):
 # ---- known-finding signatures ------------------------------------------------------------------
 
 def sign_signatures(c):
-    """one structured signature per oracle complaint of a sign case"""
+    """one structured signature per oracle complaint of a sign case; the fields name the mechanism of
+    the recorded defect so that another violation of the same kind is not masked"""
     sigs = []
-    raw = " ".join(c.get("raw_uris") or [])
     for k in (c.get("oracle_kind") or "").split("+"):
         if not k:
             continue
-        sig = {"kind": k}
+        sig = {"kind": k, "entry": c.get("entry", "authorize")}
         if k == "issued-unreadable-identity":
-            sig["encoded_slash_in_request"] = ("%2f" in raw.lower())
+            sig["mechanism"] = c.get("unreadable_mechanism") or "other"
+        if k == "decorated-uri":
+            sig["decoration_in_request"] = bool(c.get("decoration_in_request"))
+        if k == "agent-partition":
+            sig["leaf_eq_request"] = bool(c.get("leaf_eq_request"))
+        if k == "server-dns-san":
+            lf = set(c["expect"].get("dns") or [])
+            sig["san_in_request"] = all(d in set(c.get("dns") or []) for d in lf)
         sigs.append(sig)
     return sigs
 
@@ -262,7 +271,7 @@ def run(ctx):
         seen_sig.add(key)
         if c["type"] == "sign":
             ctx.violation({"kind": "oracle", "reason": c["oracle"], "signature": unknown,
-                           "sign": {k: c[k] for k in ("raw_uris", "ca_ext", "rules", "dc", "cluster", "shape", "expect", "oracle")},
+                           "sign": {k: c[k] for k in ("entry", "node", "raw_uris", "ca_ext", "rules", "dc", "cluster", "shape", "expect", "oracle")},
                            "request_uris": c["raw_uris"], "acl_rules": c["rules"],
                            "replay_cmd": "build/bin/ca -replay <this file>"})
         else:
